@@ -254,6 +254,20 @@ def recvVerdicts : List Ev → List Verdict
   | .rpass _ _ invs :: r => invs.map (·.2) ++ recvVerdicts r
   | _ :: r => recvVerdicts r
 
+def isSpass : Ev → Bool
+  | .spass _ _ => true
+  | _ => false
+
+/-- a (possibly still incomplete) sequence of downstream sender calls of ONE response: headers, then at most one data
+call, then at most one trailers call -/
+def replyShape : List Ev → Bool
+  | [] => true
+  | [.dh _ _] => true
+  | [.dh _ _, .dd _] => true
+  | [.dh _ _, .dt] => true
+  | [.dh _ _, .dd _, .dt] => true
+  | _ => false
+
 /-- the downstream sender calls that deliver a response with the given data / trailers presence and status code -/
 def replyEvs (r : Resp) (code : Option Nat) : List Ev :=
   .dh code (!r.data && !r.trailers) :: ((if r.data then [.dd (!r.trailers)] else []) ++ (if r.trailers then [.dt] else []))
